@@ -34,11 +34,28 @@ type (
 
 	// Token represents a single parsable unit.
 	Token struct {
-		File string
-		Line int
-		Text string
+		File    string
+		Line    int
+		Text    string
+		imports *importChain // the imports (files, snippets) being expanded that brought this token in
+	}
+
+	// importChain is one link of the list of imports a token came in through.
+	importChain struct {
+		name   string
+		parent *importChain
 	}
 )
+
+// contains reports whether name is already being expanded in this chain.
+func (c *importChain) contains(name string) bool {
+	for ; c != nil; c = c.parent {
+		if c.name == name {
+			return true
+		}
+	}
+	return false
+}
 
 // load prepares the lexer to scan an input for tokens.
 // It discards any leading byte order mark.
@@ -164,17 +181,13 @@ func isNextOnNewLine(t1, t2 Token) bool {
 		return true
 	}
 
-	// TODO:
-	// If the second token is from a different import chain,
-	// we can assume it's from a different line
-	// if len(t1.imports) != len(t2.imports) {
-	// 	return true
-	// }
-	// for i, im := range t1.imports {
-	// 	if im != t2.imports[i] {
-	// 		return true
-	// 	}
-	// }
+	// If the second token came in through a different import (another
+	// file or snippet, or another expansion of the same one), we can
+	// assume it's from a different line: line numbers are only
+	// comparable within one expansion
+	if t1.imports != t2.imports {
+		return true
+	}
 
 	// If the first token (incl line breaks) ends
 	// on a line earlier than the next token,
